@@ -63,6 +63,13 @@ fn vf_config_check_untouched_iff_ok() {
         write_all(&gen_bytes, &src_bytes, &good_lock);
         checked += 1;
         if let Err(e) = verdict() { bad += 1; println!("VF-FAIL untouched triple (generated file of {} bytes, source of {} bytes) :: rejected: {} (C17) (C18)", gen_bytes.len(), src_bytes.len(), e); }
+        // C18: the lockfile is JSON too: re-serialising the same lockfile value (whitespace, line breaks) changes nothing
+        for (how, text) in [("pretty-printed", format!("{{\n  \"checksum\": \"{}\"\n}}\n", good_lock)), ("with a leading blank line", format!("\n{{\"checksum\":\"{}\"}}", good_lock)),
+                            ("padded with 70 KB of spaces and line breaks", format!("{{{}\"checksum\":{}\"{}\"}}", " \n".repeat(35_000), " ".repeat(10), good_lock))] {
+            checked += 1;
+            std::fs::write(&gen, &gen_bytes).unwrap(); std::fs::write(&src, &src_bytes).unwrap(); std::fs::write(&lock, &text).unwrap();
+            if let Err(e) = verdict() { bad += 1; println!("VF-FAIL untouched triple whose lockfile is {} :: rejected: {} (C18)", how, e); }
+        }
         // edits
         let mut edits: Vec<(String, Vec<u8>, Vec<u8>, String)> = vec![];
         for (name, b) in [("newline appended to the generated file", b"\n".to_vec()), ("space appended to the generated file", b" ".to_vec())] {
